@@ -273,6 +273,20 @@ def sub_field(res, name, fs):
     add_violation(res, f"field:{cls}:{'explained' if mech else 'unexplained'}", case, name, {"text": out, "decoded": "".join(dec), "why": bad})
 
 
+def _regex_backend():
+    """a target that writes every string match as a /.../ regular expression; '/' is the extra character escaped in regular
+    expressions, the escape set of string literals (letters!) must not leak into them"""
+    if "RX" not in _BK:
+        from sigma.conversion.base import TextQueryBackend
+
+        attrs = dict(or_token="OR", and_token="AND", not_token="NOT", eq_token="=", group_expression="({expr})", str_quote='"', escape_char="\\",
+                     wildcard_multi="*", wildcard_single="?", add_escaped="aB.", add_escaped_re="/", re_escape_escape_char=False,
+                     eq_expression="{field}=~/{regex}/", wildcard_match_expression="{field}=~/{regex}/", case_sensitive_match_expression="{field}==~/{regex}/",
+                     unbound_value_str_expression="_=~/{regex}/")
+        _BK["RX"] = type("C05RegexBackend", (TextQueryBackend,), attrs)()
+    return _BK["RX"]
+
+
 def sub_regex(res, pat, subjects):
     from sigma.processing.transformations import RegexTransformation
     from sigma.types import SigmaRegularExpression, SigmaRegularExpressionFlag, SigmaString
@@ -316,6 +330,33 @@ def sub_regex(res, pat, subjects):
             add_violation(res, f"regex:{method}:exception:" + type(e).__name__, {"sub": "regex", "s": pat}, "regex", repr(e))
             continue
         forms.append((method, v, ci))
+    # the regular-expression form as a backend emits it for field values, case-sensitive field values and keywords
+    if pat != "":
+        from sigma.rule import SigmaRule
+
+        rb = _regex_backend()
+        for path, det in (("field", {"f": pat}), ("cased", {"f|cased": pat}), ("keyword", [pat])):
+            try:
+                qs = rb.convert_rule(SigmaRule.from_dict({"title": "t", "logsource": {"category": "c"}, "detection": {"sel": det, "condition": "sel"}}))
+            except Exception as e:
+                add_violation(res, f"regex:backend-{path}:exception:" + type(e).__name__, {"sub": "regex", "s": pat, "path": path}, "query", repr(e)[:200])
+                continue
+            res["evaluations"] += 1
+            q = qs[0]
+            body = q[q.index("~/") + 2 : -1] if "~/" in q and q.endswith("/") else None
+            if body is None or re.search(r"(?<!\\)(?:\\\\)*/", body):
+                add_violation(res, f"regex:backend-{path}:delimiter-not-escaped", {"sub": "regex", "s": pat, "path": path}, "no bare / inside the /.../ literal", q)
+                continue
+            try:
+                rx = re.compile(body, re.S | (0 if path == "cased" else re.I))
+            except re.error as e:
+                add_violation(res, f"regex:backend-{path}:invalid-regex", {"sub": "regex", "s": pat, "path": path}, "valid regular expression", {"query": q, "error": str(e)})
+                continue
+            for subj in subjects:
+                want = R.glob_match(ref, subj, path != "cased")
+                if want != (rx.fullmatch(subj) is not None):
+                    add_violation(res, f"regex:backend-{path}:match-differs", {"sub": "regex", "s": pat, "subject": subj, "path": path}, want, {"query": q})
+                    break
     for name, v, ci in forms:
         res["evaluations"] += 1
         if isinstance(v, SigmaString):  # the transformation keeps the empty string as a string
